@@ -123,6 +123,10 @@ func TestC05(t *testing.T) {
 		if !ok {
 			o.Dump = trunc(dump, 5000)
 		}
+		if ok && o.StartErr != "" && c.ID%2 == 0 {
+			// the host asks the failed client again before it gives up on it (Client() does the same)
+			within(startH, func() { l.Client.Start() })
+		}
 		state := func() string {
 			if sr != nil {
 				if sr.Dead() {
